@@ -20,7 +20,7 @@ ASSUMES = ["L(g) > 0", "frequencies symbolic > 0 summing to 1, flat, or with the
            "target: J(g) = L(g) * oracle (Dirichlet-)multinomial prior, i.e. the distribution call-exact enumerates (C03 ties exact.py to the same oracle)"]
 BOUNDS = {"quick": "ploidy 2..3 x 2..3 alleles, all genotypes, all copies, all target alleles",
           "thorough": "ploidy 2..4 x 2..4 alleles, plus ploidy 6 x 2 alleles"}
-OUTSIDE = "larger ploidy/alleles; float rounding; ergodicity"
+OUTSIDE = "larger ploidy/alleles; float rounding; ergodicity (class-wiring group: CallingMCMC.fit -> greedy_caller / mcmc_sampler receive the object's symbolic inbreeding, frequencies, counts, step type, once per chain)"
 
 
 def configs(tier):
@@ -35,6 +35,8 @@ def configs(tier):
                         out.append(dict(P=P, A=A, inbred=inbred, freqs=freqs, step=step, lo=lo, hi=min(len(genos), lo + 8)))
     for P in (2, 3) if tier == "quick" else (2, 3, 4):
         out.append(dict(step="compound", P=P, A=2))
+    for cls in ("calling-gibbs", "calling-mh"):  # CallingMCMC.fit -> greedy_caller / mcmc_sampler
+        out.append(dict(group="class-wiring", cls=cls, step="wiring", P=1, A=1))
     return out
 
 
@@ -71,6 +73,11 @@ def _harness():
 
 
 def run_config(c, col):
+    if c.get("group") == "class-wiring":
+        from checks import wiring
+
+        E.use_summaries(True)
+        return wiring.run_class(c, col)
     cm = _harness()
     if c["step"] == "compound":
         return _run_compound(c, col, cm)
@@ -258,6 +265,10 @@ def _real_kernel(step, g, k, A, F, farr, Lmap):
 def replay(v):
     import math
 
+    if v["config"].get("group") == "class-wiring":
+        from checks import wiring
+
+        return wiring.replay_real(v, wiring.run_class)
     c = v["config"]
     m = v.get("model") or {}
     if c["step"] == "compound":
